@@ -213,7 +213,7 @@ func runC17(cx *Ctx, r *Report) {
 				var want string
 				if name == "EditFeed" {
 					want = "(stored count − msg.LatestHistory), only when msg.LatestHistory < stored count"
-					_, g := d.fact(true, "msg.LatestHistory", " < ")
+					_, g := d.factOrdered(true, "msg.LatestHistory", " < ")
 					ok = hasCounter(a) && strings.HasPrefix(a, "(") && strings.HasSuffix(a, " - msg.LatestHistory)") && g
 				} else {
 					want = "((stored count − feed.LatestHistory) + 1) before adding one value"
